@@ -1256,7 +1256,13 @@ func (w *Wallet) selectProofsForAmount(
 		if inactiveKeysetProofs.Amount() < amount {
 			selectedProofs = inactiveKeysetProofs
 		} else {
-			selectedProofs, _ = selectProofsToSend(inactiveKeysetProofs, amount, mint, includeFees)
+			var err error
+			selectedProofs, err = selectProofsToSend(inactiveKeysetProofs, amount, mint, includeFees)
+			if err != nil {
+				// proofs from inactive keysets are enough for the amount but not for the
+				// amount plus fees. Take all of them and add proofs from the active keyset.
+				selectedProofs = inactiveKeysetProofs
+			}
 		}
 		if includeFees {
 			fees = uint64(feesForProofs(selectedProofs, mint))
